@@ -7,7 +7,8 @@ Rust anchors
   src/options.rs   ColumnOptions::{as_string, from_string, is_valid},
                    Options::{write_metadata_file_with_version, load_metadata_file,
                    load_and_validate_metadata}
-  src/compress.rs  `impl From<u8> for CompressionType` (panics on an unknown code)
+  src/compress.rs  `impl From<u8> for CompressionType` (panics on an unknown code; since
+                   fix-c17-compression-code-panic `from_string` rejects such a code first)
   src/db.rs        DbInner::open (directory check, lock file, metadata),
                    Db::{precheck_column_operation, add_column, drop_last_column,
                    reset_column, remove_column_files}
@@ -24,6 +25,12 @@ MODELLING BOUNDARY
     either text (only the `metadata` file is ever parsed) or opaque data.  I/O
     errors, the OS lock (`Error::Locked`), non-UTF-8 file names (skipped by
     `drop_files`) are outside the model.
+  * The model follows the tree WITH the C17 fixes applied (fixes/fix-c17-*.diff):
+    open without create checks for the metadata file before it creates `lock`; the handle
+    always uses the stored salt; the administration calls keep the stored salt and format
+    version; `add_column` / `drop_last_column` refuse more than 256 columns; `clear_column`
+    opens and closes the database first; unknown compression codes and salts of the wrong
+    length are `Corruption` errors.
   * What a successful `Db::open` + `drop` does to the directory after the metadata
     check (log replay into the tables, log removal, later failures of `Log::open` /
     `Column::open`) is an abstract parameter `replay`; its correctness is the subject
@@ -39,6 +46,11 @@ DRIVER PROTOCOL (command `c17`, see `driverLine` at the end of the file)
                       -> `ok` | `err:InvalidConfiguration` |
                          `err:IncompatibleColumnConfig:<id>`   (id = index as u8)
   match <col> <filename>   -> `1` / `0`: would `Column::drop_files(col)` delete it
+  admin <lock 0/1> <metadata text: x<hex> | -> <options.salt: 64 hex | -> <n> <n groups:
+        requested columns> <op>      op = add <8 fields> | droplast | reset <i> none |
+                      reset <i> <8 fields> | clear <i>
+                      the call on a directory holding only (optionally) `lock` and `metadata`
+                      -> `<result> <lock after 0/1> <metadata text after: x<hex> | ->`
   encmeta <version> <salt: 64 hex digits> <n> <n groups of 8 fields>
                       -> x<hex of the UTF-8 bytes of the metadata file text>
   decmeta x<hex>      -> `ok <version> <salt hex> <n> <n groups of 8 fields>` |
@@ -282,8 +294,8 @@ def optFlag (items : List (Text × Text)) (key : Text) : Bool :=
   | some v => (parseBool v).getD false
   | none => false
 
-/-- `ColumnOptions::from_string`.  `None` (a missing / unparsable required key) is decided
-before `compression.into()` is evaluated, so `none` has priority over `panic`. -/
+/-- `ColumnOptions::from_string`.  `None` for a missing / unparsable required key and for a
+compression code above `Snappy` (checked before `compression.into()`, which would panic). -/
 def fromString (s : Text) : Parse ColumnOptions :=
   let items := parseItems s
   match (lookupLast t!"preimage" items).bind parseBool with
@@ -303,7 +315,7 @@ def fromString (s : Text) : Parse ColumnOptions :=
             multitree := optFlag items t!"multitree",
             appendOnly := optFlag items t!"append_only",
             allowDirectNodeAccess := optFlag items t!"allow_direct_node_access" }
-    | _ => .panic
+    | _ => .none
 
 /-! ## Metadata file -/
 
@@ -317,6 +329,7 @@ inductive Err where
   | invalidConfigVersion         -- InvalidConfiguration("Unsupported database version ..")
   | invalidConfigMissingSalt     -- InvalidConfiguration("Missing salt value")
   | invalidConfigColumnCount     -- InvalidConfiguration("Column config mismatch. Expected ..")
+  | invalidConfigTooManyColumns  -- InvalidConfiguration("Cannot add a column ..." / "Unsupported number ..")
   | incompatibleColumnConfig (id : Nat)   -- IncompatibleColumnConfig { id, .. }
   | databaseNotFound             -- DatabaseNotFound
   | migration                    -- Migration(..)
@@ -328,7 +341,7 @@ def Err.kind : Err → String
   | .corruptionBadMetadata | .corruptionBadVersion | .corruptionBadSalt
   | .corruptionBadColumn => "Corruption"
   | .invalidConfigVersion | .invalidConfigMissingSalt
-  | .invalidConfigColumnCount => "InvalidConfiguration"
+  | .invalidConfigColumnCount | .invalidConfigTooManyColumns => "InvalidConfiguration"
   | .incompatibleColumnConfig _ => "IncompatibleColumnConfig"
   | .databaseNotFound => "DatabaseNotFound"
   | .migration => "Migration"
@@ -388,8 +401,9 @@ def stepLine (st : MetaAcc) (l : Text) : Outcome MetaAcc :=
       match hexDecode v with
       | none => .err .corruptionBadSalt
       | some bytes =>
-        -- `s.copy_from_slice(&salt_slice)` panics unless the lengths agree
-        if bytes.length = 32 then .ok { st with salt := some bytes } else .panic
+        -- `salt_slice.try_into()` fails unless the slice has exactly 32 bytes
+        if bytes.length = 32 then .ok { st with salt := some bytes }
+        else .err .corruptionBadSalt
     else if (t!"col").isPrefixOf k then
       match fromString v with
       | .ok o => .ok { st with columns := st.columns ++ [o] }
@@ -518,16 +532,21 @@ structure OpResult (β α : Type) where
   fs : Option (Dir β)
 
 /-- `DbInner::open` up to and including `load_and_validate_metadata`, followed by the
-abstract rest of a successful open + close (`replay`).  `salt` is `options.salt`,
-`fresh` the random salt drawn when a database is created.  Returns the salt the handle
-ends up with (`options.salt` if set, else the stored one). -/
+abstract rest of a successful open + close (`replay`).  `salt` is `options.salt` (used only
+when the database is created), `fresh` the random salt drawn when a database is created.
+Returns the salt and the format version of the handle: always the stored ones
+(`options.salt = Some(metadata.salt)`, `db_version = metadata.version`). -/
 def openDb {β : Type} (replay : Dir β → Dir β) (fs : Option (Dir β))
     (requested : List ColumnOptions) (salt : Option (List Nat)) (create : Bool)
-    (fresh : List Nat) : OpResult β (List Nat) :=
+    (fresh : List Nat) : OpResult β (List Nat × Nat) :=
   match fs, create with
   | none, false => { result := .err .databaseNotFound, fs := none }
   | _, _ =>
     let d0 : Dir β := fs.getD Dir.empty          -- `create_dir_all` when creating
+    -- not creating and no metadata file: fails before the lock file is created
+    if !create && (d0 metadataName).isNone then
+      { result := .err .databaseNotFound, fs := some d0 }
+    else
     let d1 := ensureLock d0
     match loadMetadataFile (d1 metadataName) with
     | .err e => { result := .err e, fs := some d1 }
@@ -535,45 +554,48 @@ def openDb {β : Type} (replay : Dir β → Dir β) (fs : Option (Dir β))
     | .ok (some m) =>
       match validate m.columns requested with
       | .error e => { result := .err e, fs := some d1 }
-      | .ok () => { result := .ok (salt.getD m.salt), fs := some (replay d1) }
+      | .ok () => { result := .ok (m.salt, m.version), fs := some (replay d1) }
     | .ok none =>
       if create then
         let s := salt.getD fresh
         let d2 := d1.write metadataName (.text (encodeMeta Pdb.Gen.CURRENT_VERSION s requested))
-        { result := .ok s, fs := some (replay d2) }
+        { result := .ok (s, Pdb.Gen.CURRENT_VERSION), fs := some (replay d2) }
       else { result := .err .databaseNotFound, fs := some d1 }
 
-/-- `Db::precheck_column_operation`: open without create, close, return the salt. -/
+/-- `Db::precheck_column_operation`: open without create, close, return the salt and the
+format version. -/
 def precheck {β : Type} (replay : Dir β → Dir β) (fs : Option (Dir β))
-    (requested : List ColumnOptions) (salt : Option (List Nat)) : OpResult β (List Nat) :=
+    (requested : List ColumnOptions) (salt : Option (List Nat)) : OpResult β (List Nat × Nat) :=
   openDb replay fs requested salt false []
 
-def writeMeta {β : Type} (d : Dir β) (salt : List Nat) (cols : List ColumnOptions) : Dir β :=
-  d.write metadataName (.text (encodeMeta Pdb.Gen.CURRENT_VERSION salt cols))
+def writeMeta {β : Type} (d : Dir β) (version : Nat) (salt : List Nat)
+    (cols : List ColumnOptions) : Dir β :=
+  d.write metadataName (.text (encodeMeta version salt cols))
 
-/-- `Db::add_column`. -/
+/-- `Db::add_column` (column ids are `u8`: at most 256 columns). -/
 def addColumn {β : Type} (replay : Dir β → Dir β) (fs : Option (Dir β))
     (requested : List ColumnOptions) (salt : Option (List Nat)) (new : ColumnOptions) :
     OpResult β Unit :=
   match precheck replay fs requested salt with
-  | { result := .ok s, fs := some d } =>
-    { result := .ok (), fs := some (writeMeta d s (requested ++ [new])) }
+  | { result := .ok (s, v), fs := some d } =>
+    if requested.length > 255 then
+      { result := .err .invalidConfigTooManyColumns, fs := some d }
+    else { result := .ok (), fs := some (writeMeta d v s (requested ++ [new])) }
   | { result := .ok _, fs := none } => { result := .ok (), fs := none }  -- unreachable
   | { result := .err e, fs := fs' } => { result := .err e, fs := fs' }
   | { result := .panic, fs := fs' } => { result := .panic, fs := fs' }
 
-/-- `Db::drop_last_column` (`index as u8` truncates). -/
+/-- `Db::drop_last_column` (`ColId::try_from(len - 1)`). -/
 def dropLastColumn {β : Type} (replay : Dir β → Dir β) (fs : Option (Dir β))
     (requested : List ColumnOptions) (salt : Option (List Nat)) : OpResult β Unit :=
   match precheck replay fs requested salt with
-  | { result := .ok s, fs := some d } =>
+  | { result := .ok (s, v), fs := some d } =>
     if requested.length = 0 then { result := .ok (), fs := some d }
+    else if requested.length > 256 then
+      { result := .err .invalidConfigTooManyColumns, fs := some d }
     else
-      let index := (requested.length - 1) % 256
-      if index ≥ requested.length then
-        { result := .err (.incompatibleColumnConfig index), fs := some d }
-      else
-        { result := .ok (), fs := some (writeMeta (dropFiles index d) s requested.dropLast) }
+      { result := .ok (),
+        fs := some (writeMeta (dropFiles (requested.length - 1) d) v s requested.dropLast) }
   | { result := .ok _, fs := none } => { result := .ok (), fs := none }  -- unreachable
   | { result := .err e, fs := fs' } => { result := .err e, fs := fs' }
   | { result := .panic, fs := fs' } => { result := .panic, fs := fs' }
@@ -583,21 +605,28 @@ def resetColumn {β : Type} (replay : Dir β → Dir β) (fs : Option (Dir β))
     (requested : List ColumnOptions) (salt : Option (List Nat)) (index : Nat)
     (newOptions : Option ColumnOptions) : OpResult β Unit :=
   match precheck replay fs requested salt with
-  | { result := .ok s, fs := some d } =>
+  | { result := .ok (s, v), fs := some d } =>
     if index ≥ requested.length then
       { result := .err (.incompatibleColumnConfig index), fs := some d }
     else
       let d' := dropFiles index d
       match newOptions with
-      | some o => { result := .ok (), fs := some (writeMeta d' s (requested.set index o)) }
+      | some o => { result := .ok (), fs := some (writeMeta d' v s (requested.set index o)) }
       | none => { result := .ok (), fs := some d' }
   | { result := .ok _, fs := none } => { result := .ok (), fs := none }  -- unreachable
   | { result := .err e, fs := fs' } => { result := .err e, fs := fs' }
   | { result := .panic, fs := fs' } => { result := .panic, fs := fs' }
 
-/-- `migration::clear_column`: NO open beforehand (no lock, no option check, no replay of
-pending logs); only the stored column count is consulted. -/
-def clearColumn {β : Type} (fs : Option (Dir β)) (column : Nat) : OpResult β Unit :=
+/-- The open + close `migration::clear_column` performs before it deletes anything: with the
+stored columns and the stored salt as options (so the option check cannot fail). -/
+def clearPrecheck {β : Type} (replay : Dir β → Dir β) (fs : Option (Dir β)) (m : Metadata) :
+    OpResult β (List Nat × Nat) :=
+  precheck replay fs m.columns (some m.salt)
+
+/-- `migration::clear_column`: the stored column count is consulted, then the database is
+opened and closed (pending logs are replayed and removed), then the files are deleted. -/
+def clearColumn {β : Type} (replay : Dir β → Dir β) (fs : Option (Dir β)) (column : Nat) :
+    OpResult β Unit :=
   match fs with
   | none => { result := .err .migration, fs := none }
   | some d =>
@@ -607,7 +636,12 @@ def clearColumn {β : Type} (fs : Option (Dir β)) (column : Nat) : OpResult β 
     | .ok none => { result := .err .migration, fs := some d }
     | .ok (some m) =>
       if column ≥ m.columns.length then { result := .err .migration, fs := some d }
-      else { result := .ok (), fs := some (dropFiles column d) }
+      else
+        match clearPrecheck replay fs m with
+        | { result := .ok _, fs := some d' } => { result := .ok (), fs := some (dropFiles column d') }
+        | { result := .ok _, fs := none } => { result := .ok (), fs := none }  -- unreachable
+        | { result := .err e, fs := fs' } => { result := .err e, fs := fs' }
+        | { result := .panic, fs := fs' } => { result := .panic, fs := fs' }
 
 /-- Look a name up in a possibly missing directory. -/
 def fsGet {β : Type} (fs : Option (Dir β)) (n : FileName) : Option (Content β) :=
@@ -628,30 +662,42 @@ def applyAdmin {β : Type} (replay : Dir β → Dir β) (fs : Option (Dir β))
   | .add new => addColumn replay fs requested salt new
   | .dropLast => dropLastColumn replay fs requested salt
   | .reset index newOptions => resetColumn replay fs requested salt index newOptions
-  | .clear column => clearColumn fs column
+  | .clear column => clearColumn replay fs column
 
 /-- The column whose files the call deletes (if any). -/
 def AdminOp.affected (requested : List ColumnOptions) : AdminOp → Option Nat
   | .add _ => none
-  | .dropLast => if requested.length = 0 then none else some ((requested.length - 1) % 256)
+  | .dropLast =>
+    if requested.length = 0 ∨ requested.length > 256 then none else some (requested.length - 1)
   | .reset index _ => some index
   | .clear column => some column
 
 /-- The column list with which the call rewrites the metadata file (`none`: metadata is
 not rewritten). -/
 def AdminOp.newColumns (requested : List ColumnOptions) : AdminOp → Option (List ColumnOptions)
-  | .add new => some (requested ++ [new])
-  | .dropLast => if requested.length = 0 then none else some requested.dropLast
+  | .add new => if requested.length > 255 then none else some (requested ++ [new])
+  | .dropLast =>
+    if requested.length = 0 ∨ requested.length > 256 then none else some requested.dropLast
   | .reset index (some o) => some (requested.set index o)
   | .reset _ none => none
   | .clear _ => none
 
-/-- The directory the call starts from: the state left by the precheck open/close for
-`add_column` / `drop_last_column` / `reset_column`; the directory as found for
-`clear_column` (which does not open the database). -/
+/-- The directory `clear_column` starts deleting from: the state left by its open/close if
+it gets that far, the directory as found otherwise. -/
+def clearBase {β : Type} (replay : Dir β → Dir β) (fs : Option (Dir β)) (column : Nat) :
+    Option (Dir β) :=
+  match fs with
+  | none => none
+  | some d =>
+    match loadMetadataFile (d metadataName) with
+    | .ok (some m) =>
+      if column ≥ m.columns.length then some d else (clearPrecheck replay fs m).fs
+    | _ => some d
+
+/-- The directory the call starts from: the state left by the precheck open/close. -/
 def adminBase {β : Type} (replay : Dir β → Dir β) (fs : Option (Dir β))
     (requested : List ColumnOptions) (salt : Option (List Nat)) : AdminOp → Option (Dir β)
-  | .clear _ => fs
+  | .clear column => clearBase replay fs column
   | _ => (precheck replay fs requested salt).fs
 
 /-! ## Correspondence driver -/
@@ -707,8 +753,58 @@ def renderErr : Err → String
   | .incompatibleColumnConfig id => "err:IncompatibleColumnConfig:" ++ toString id
   | e => "err:" ++ e.kind
 
+def parseAdminOp : List String → Option AdminOp
+  | ["droplast"] => some .dropLast
+  | ["clear", i] => i.toNat?.map .clear
+  | ["reset", i, "none"] => i.toNat?.map fun i => .reset i none
+  | "reset" :: i :: rest => do
+    let i ← i.toNat?
+    let o ← parseOptions8 rest
+    some (.reset i (some o))
+  | "add" :: rest => (parseOptions8 rest).map .add
+  | _ => none
+
+/-- `admin`: one administration call on a directory that holds (at most) a `lock` file and a
+metadata file with the given text; `replay` is the identity (only `lock` and `metadata` are
+observed). -/
+def adminLine (lock mtext salt n : String) (rest : List String) : String :=
+  let lock? : Option Bool := parseBit lock
+  let mtext? : Option (Option Text) :=
+    if mtext = "-" then some none else (parseHexText mtext).map some
+  let salt? : Option (Option (List Nat)) :=
+    if salt = "-" then some none
+    else match hexDecode salt.toList with
+      | some b => if b.length = 32 then some (some b) else none
+      | none => none
+  match lock?, mtext?, salt?, n.toNat? with
+  | some lock, some mtext, some salt, some n =>
+    match parseOptionGroups n rest with
+    | some (requested, opArgs) =>
+      match parseAdminOp opArgs with
+      | some op =>
+        let d0 : Dir Unit := fun nm =>
+          if nm = metadataName then mtext.map .text
+          else if nm = lockName then (if lock then some (.text []) else none)
+          else none
+        let r := applyAdmin id (some d0) requested salt op
+        let res := match r.result with
+          | .ok () => "ok"
+          | .err e => renderErr e
+          | .panic => "panic"
+        match r.fs with
+        | none => res ++ " nodir"
+        | some d =>
+          res ++ " " ++ bit (d lockName).isSome ++ " " ++
+            (match d metadataName with
+              | some (.text t) => renderHexText t
+              | _ => "-")
+      | none => "bad-op"
+    | none => "bad-op"
+  | _, _, _, _ => "bad-op"
+
 def driverLine (args : List String) : String :=
   match args with
+  | "admin" :: lock :: mtext :: salt :: n :: rest => adminLine lock mtext salt n rest
   | "enc" :: rest =>
     match parseOptions8 rest with
     | some o => String.ofList (asString o)
